@@ -449,3 +449,185 @@ Proof.
   rewrite EA. destruct (sv_mix_from_getc (cpkg self) (crow self) sc c L) as [EM _].
   rewrite EM. apply V.
 Qed.
+
+(* ---------- Stream.mix_from, single-phase receiver, material only ---------- *)
+Definition tot_at (st : store) (c : nat) (i : nat) : Q :=
+  match nth_error st i with Some s => tot s c | None => 0 end.
+
+Lemma gets_ok st i s : gets st i = Ok s -> nth_error st i = Some s.
+Proof. unfold gets. destruct (nth_error st i); intros H; inversion H; auto. Qed.
+
+Lemma gets_all_spec st l all : gets_all st l = Ok all ->
+  map fst all = l /\ forall js, In js all -> nth_error st (fst js) = Some (snd js).
+Proof.
+  revert all; induction l as [|i l IH]; intros all H; simpl in H.
+  - inversion H; subst. split; auto. intros ? [].
+  - destruct (gets st i) as [s|] eqn:E; simpl in H; [|discriminate].
+    destruct (gets_all st l) as [r|] eqn:E2; simpl in H; [|discriminate].
+    inversion H; subst. destruct (IH r eq_refl) as [A B]. split; [simpl; f_equal; auto|].
+    intros js [X|X]; [subst; simpl; apply gets_ok; auto | auto].
+Qed.
+
+Lemma row_any_false_getc p r c : row_any r = false -> getc p r c == 0.
+Proof.
+  intros H. unfold getc. destruct (index_of c (cas p)) as [i|]; [|reflexivity].
+  unfold row_any in H. destruct (Nat.lt_ge_cases i (length r)) as [L|L].
+  - assert (In (nthq r i) r) by (unfold nthq; apply nth_In; auto).
+    destruct (qzerob (nthq r i)) eqn:Z; [apply qzerob_true; auto|].
+    exfalso. assert (existsb (fun x => negb (qzerob x)) r = true); [|congruence].
+    apply existsb_exists. exists (nthq r i). rewrite Z. auto.
+  - rewrite nthq_overflow; auto. reflexivity.
+Qed.
+Lemma isempty_tot s c : isempty s = true -> tot s c == 0.
+Proof.
+  unfold isempty, tot, rows_tot. intros H. apply negb_true_iff in H. unfold rows_any in H.
+  induction (srows s) as [|r rows IH]; simpl in *; [reflexivity|].
+  apply orb_false_iff in H. destruct H as [H1 H2]. rewrite IH by auto.
+  rewrite (row_any_false_getc _ _ _ H1). lra.
+Qed.
+Lemma empty_stream_tot s c : tot (empty_stream s) c == 0.
+Proof.
+  destruct s as [c0|m]; unfold tot, rows_tot; simpl.
+  - rewrite getc_vzero. lra.
+  - induction (mrows m) as [|r rows IH]; simpl; [reflexivity|]. rewrite getc_vzero, IH. lra.
+Qed.
+
+Lemma qsum_filter_nonempty st c (all : list (nat * stream)) :
+  (forall js, In js all -> nth_error st (fst js) = Some (snd js)) ->
+  qsum (map (fun js => tot (snd js) c) (filter (fun js => negb (isempty (snd js))) all))
+  == qsum (map (tot_at st c) (map fst all)).
+Proof.
+  induction all as [|js all IH]; intros H; simpl; [reflexivity|].
+  unfold tot_at at 1. rewrite (H js (or_introl eq_refl)).
+  destruct (isempty (snd js)) eqn:E; simpl.
+  - rewrite IH by (intros; apply H; right; auto). rewrite (isempty_tot _ c E). lra.
+  - rewrite IH by (intros; apply H; right; auto). lra.
+Qed.
+
+Lemma qsum_map_ext {A} (f g : A -> Q) l : (forall x, In x l -> f x == g x) ->
+  qsum (map f l) == qsum (map g l).
+Proof.
+  induction l as [|x l IH]; intros H; [reflexivity|].
+  cbn [map qsum fold_right]. change (fold_right Qplus 0 (map f l)) with (qsum (map f l)).
+  change (fold_right Qplus 0 (map g l)) with (qsum (map g l)).
+  rewrite IH by (intros; apply H; right; auto). rewrite (H x (or_introl eq_refl)). reflexivity.
+Qed.
+
+Lemma mix_noeb st r ins hf rs all : gets st r = Ok rs -> gets_all st ins = Ok all ->
+  mix st r ins false hf =
+  match filter (fun js => negb (isempty (snd js))) all with
+  | [] => Ok (empty_stream rs)
+  | ne => imol_mix_from rs (map (to_inl r) ne)
+  end.
+Proof.
+  intros G GA. unfold mix. rewrite G, GA. cbn [bind].
+  destruct (filter (fun js => negb (isempty (snd js))) all) as [|a [|b t]]; auto.
+  destruct (imol_mix_from rs (map (to_inl r) (a :: b :: t))); reflexivity.
+Qed.
+
+Lemma mix_value_single_lemma st r ins hf c0 r' :
+  wf_store st -> gets st r = Ok (SS c0) -> mix st r ins false hf = Ok r' ->
+  spkg r' = cpkg c0 /\ forall c, tot r' c == qsum (map (tot_at st c) ins).
+Proof.
+  intros [WS CO] G H.
+  destruct (gets_all st ins) as [all|] eqn:GA;
+    [|unfold mix in H; rewrite G, GA in H; discriminate].
+  rewrite (mix_noeb _ _ _ _ _ _ G GA) in H.
+  destruct (gets_all_spec _ _ _ GA) as [MF NE].
+  pose proof (gets_ok _ _ _ G) as GR.
+  assert (In (SS c0) st) as INR by (eapply nth_error_In; eauto).
+  set (ne := filter (fun js => negb (isempty (snd js))) all) in *.
+  assert (forall js, In js ne -> nth_error st (fst js) = Some (snd js)) as NE'
+    by (intros js I; apply NE; unfold ne in I; apply filter_In in I; tauto).
+  assert (forall c, qsum (map (fun js => tot (snd js) c) ne) == qsum (map (tot_at st c) ins)) as SUM
+    by (intros c; rewrite <- MF; apply qsum_filter_nonempty; auto).
+  assert (forall r1, imol_mix_from (SS c0) (map (to_inl r) ne) = Ok r1 -> ne <> [] ->
+          spkg r1 = cpkg c0 /\ forall c, tot r1 c == qsum (map (tot_at st c) ins)) as KEY.
+  { intros r1 H1 NN. simpl in H1.
+    destruct (cmix_from c0 (map (to_inl r) ne)) as [c'|] eqn:CM; simpl in H1; [|discriminate].
+    inversion H1; subst.
+    destruct (cmix_from_value _ _ _ CM (WS _ INR)) as [P [L V]].
+    - intros i I. apply in_map_iff in I. destruct I as [js [I1 I2]]. subst i.
+      pose proof (NE' _ I2) as N2. unfold to_inl.
+      destruct (Nat.eqb r (fst js)) eqn:ER; simpl.
+      + split; [apply WS; auto | intros _; reflexivity].
+      + assert (In (snd js) st) as IS by (eapply nth_error_In; eauto).
+        pose proof (CO (SS c0) (snd js) INR IS) as CC. pose proof (WS _ IS) as WW.
+        destruct (snd js); simpl in *; split; auto.
+    - simpl. split; auto. intros c. unfold tot, rows_tot. simpl. rewrite P. rewrite V.
+      rewrite <- SUM. rewrite map_map.
+      assert (forall js, In js ne -> tot (inl_stream (SS c0) (to_inl r js)) c = tot (snd js) c) as EQ.
+      { intros js I. unfold to_inl. destruct (Nat.eqb r (fst js)) eqn:ER; simpl.
+        - apply Nat.eqb_eq in ER. pose proof (NE' _ I) as N2. rewrite <- ER, GR in N2.
+          inversion N2. reflexivity.
+        - destruct (snd js); reflexivity. }
+      rewrite Qplus_0_r. apply qsum_map_ext. intros js I. rewrite (EQ js I). reflexivity. }
+  destruct ne as [|a t] eqn:EN.
+  - assert (r' = empty_stream (SS c0)) as ER by (inversion H; reflexivity). rewrite ER.
+    split; [reflexivity|]. intros c. rewrite empty_stream_tot. rewrite <- SUM. simpl. reflexivity.
+  - apply KEY; [exact H | discriminate].
+Qed.
+
+(* ---------- scale ---------- *)
+Lemma scale_value_lemma k s c : tot (scale k s) c == k * tot s c.
+Proof.
+  destruct s as [c0|m]; unfold tot, rows_tot; simpl.
+  - rewrite getc_vscale. lra.
+  - induction (mrows m) as [|r rows IH]; simpl; [lra|]. rewrite getc_vscale, IH. lra.
+Qed.
+Lemma scale_rows_lemma k s : spkg (scale k s) = spkg s /\ sphases (scale k s) = sphases s /\
+  srows (scale k s) = map (vscale k) (srows s).
+Proof. destruct s; simpl; auto. Qed.
+
+(* ---------- Stream.split_to ---------- *)
+Lemma put_values_value fpkg values out a :
+  put_values fpkg values out = Ok a ->
+  wf_pkg fpkg -> wf_pkg (spkg out) -> coherent (spkg out) fpkg -> length values = psize fpkg ->
+  spkg a = spkg out /\ forall c, tot a c == getc fpkg values c.
+Proof.
+  intros H WF WO CO LV. destruct out as [c0|m]; simpl in *.
+  - destruct (same_pkg (cpkg c0) fpkg) eqn:SP.
+    + inversion H; subst. simpl. split; auto. intros c. unfold tot, rows_tot. simpl.
+      rewrite (same_pkg_eq _ _ SP CO). lra.
+    + destruct (remap (cpkg c0) fpkg values) as [r|] eqn:RM; simpl in H; [|discriminate].
+      inversion H; subst. simpl. split; auto. intros c. unfold tot, rows_tot. simpl.
+      destruct (remap_getc _ _ _ _ RM WO WF LV) as [_ E]. rewrite E. lra.
+  - destruct (same_pkg (mpkg m) fpkg); [discriminate|].
+    destruct (row_any values) eqn:RA.
+    + destruct (overlap (mpkg m) fpkg (nz_keys values)); simpl in H; discriminate.
+    + inversion H; subst. split; [reflexivity|]. intros c.
+      rewrite (empty_stream_tot (MS m) c). rewrite (row_any_false_getc _ _ _ RA). reflexivity.
+Qed.
+
+Lemma to_single_pkg s p : spkg (to_single s p) = spkg s.
+Proof. destruct s; reflexivity. Qed.
+
+Lemma split_single_value fpkg fphase frow s1 s2 sp eb a b :
+  split_single fpkg fphase frow s1 s2 sp eb = Ok (a, b) ->
+  wf_pkg fpkg -> length frow = psize fpkg -> length (split_vec (length frow) sp) = length frow ->
+  wf_pkg (spkg s1) -> wf_pkg (spkg s2) -> coherent (spkg s1) fpkg -> coherent (spkg s2) fpkg ->
+  let spv := split_vec (length frow) sp in
+  forall c,
+    tot a c == getc fpkg (vmul frow spv) c /\
+    tot b c == getc fpkg frow c - getc fpkg (vmul frow spv) c /\
+    tot a c + tot b c == getc fpkg frow c.
+Proof.
+  intros H WF LF LS W1 W2 C1 C2 spv c. unfold split_single in H. fold spv in H.
+  set (o1 := if eb then to_single s1 fphase else s1) in *.
+  set (o2 := if eb then to_single s2 fphase else s2) in *.
+  assert (spkg o1 = spkg s1) as P1 by (unfold o1; destruct eb; [apply to_single_pkg | reflexivity]).
+  assert (spkg o2 = spkg s2) as P2 by (unfold o2; destruct eb; [apply to_single_pkg | reflexivity]).
+  destruct (put_values fpkg (vmul frow spv) o1) as [x|] eqn:E1; simpl in H; [|discriminate].
+  destruct (put_values fpkg (vsub frow (vmul frow spv)) o2) as [y|] eqn:E2; simpl in H; [|discriminate].
+  inversion H; subst.
+  assert (length (vmul frow spv) = length frow) as LM by (apply map2_length; unfold spv; lia).
+  destruct (put_values_value _ _ _ _ E1 WF) as [_ V1]; try rewrite P1; auto; [lia|].
+  destruct (put_values_value _ _ _ _ E2 WF) as [_ V2]; try rewrite P2; auto.
+  { unfold vsub. rewrite map2_length; lia. }
+  rewrite V1, V2. rewrite getc_vsub by lia. repeat split; lra.
+Qed.
+
+(* the first outlet is split * feed for every chemical of the feed's package *)
+Lemma split_product fpkg frow spv c i : index_of c (cas fpkg) = Some i -> length frow = length spv ->
+  getc fpkg (vmul frow spv) c == getc fpkg frow c * getc fpkg spv c.
+Proof. intros H L. unfold getc. rewrite H. apply nthq_vmul; auto. Qed.
